@@ -80,7 +80,60 @@ def corpus_cases():
                     for w in g.watch:
                         c.op("tree", w)
                     cases.append(c)
-    return cases + io_fault_cases()
+    return cases + io_fault_cases() + long_fault_cases()
+
+
+def long_fault_cases():
+    """the same enumeration on paths of ~300 bytes made of multi-byte names, with names of 1, 2 and 3 bytes at the end so that
+    every byte offset counted from either end falls inside a character for one of them: whatever is done with the path of
+    a failing call (messages, labels), the failure is returned, not a panic"""
+    import random
+    rng = random.Random(61)
+    cases = []
+    deep = "/".join(["日本語"] * 28)
+    for kind in ("mem", "alt_mem", "ovl_mm", "ovl_sub"):
+        probe = vfx.Case("probe")
+        gp = hist.build_config(probe, kind, rng)
+        ninst = len(sorted(set([gp.target] + gp.watch)))
+        for opk in ("copyfile", "movefile", "copydir", "movedir", "append"):
+            for tail in (1, 2, 3):
+                for which in range(ninst):
+                    for k in range(5):
+                        c = vfx.Case("c20_long_%s_%s_%d_%d_%d" % (kind, opk, tail, which, k))
+                        g = hist.build_config(c, kind, rng)
+                        c.cfg = g
+                        t = g.target
+                        if opk == "append" and g.prepop:
+                            lo, sub = g.prepop[0]
+                            base = sub[1:] + "/" if sub else ""
+                            c.op("createdirall", vfx.ps(lo, base + deep + "/" + "s" * tail))
+                            hist.write_file(c, lo, base + deep + "/" + "s" * tail + "/" + "f" * tail, b"lower bytes")
+                            c.op("createdirall", vfx.ps(t, deep))
+                        else:
+                            c.op("createdirall", vfx.ps(t, deep + "/" + "s" * tail))
+                            hist.write_file(c, t, deep + "/" + "s" * tail + "/" + "f" * tail, b"some bytes")
+                        c.op("snap", t)
+                        c.first_snap = c.nops - 1
+                        insts = sorted(set([t] + g.watch))
+                        fid = insts[which]
+                        c.fault_step = c.op("setfault", fid, k)
+                        c.fault = (fid, k)
+                        before = c.nops
+                        src_dir = deep + "/" + "s" * tail
+                        src_file = src_dir + "/" + "f" * tail
+                        if opk == "append":
+                            h = c.op("appendfile", hist._ps(t, src_file)); c.op("hwrite", h, vfx.hexs(b"NEW")); c.op("hdrop", h)
+                        elif opk in ("copyfile", "movefile"):
+                            c.op(opk, hist._ps(t, src_file), hist._ps(t, deep + "/" + "D" * tail))
+                        else:
+                            c.op(opk, hist._ps(t, src_dir), hist._ps(t, deep + "/" + "D" * tail))
+                        c.faulted_ops = list(range(before, c.nops))
+                        c.op("clearlog")
+                        c.after_snap = c.op("snap", t)
+                        for w in g.watch:
+                            c.op("tree", w)
+                        cases.append(c)
+    return cases
 
 
 IO_DIRECTED = [("copyfile", "g", "zz"), ("movefile", "d/f", "m/zz"), ("copydir", "d", "zz"), ("movedir", "d", "zz"),
